@@ -129,13 +129,39 @@ type pcReader struct{ pc sonic.PacketConn }
 
 func (r pcReader) rawFd() int { return r.pc.RawFd() }
 func (r pcReader) port() int  { _, p, _ := sysx.LocalAddr4(r.pc.RawFd()); return p }
+
+// retainedAddrs keeps the net.Addr values the PacketConn handed to completions, with what they said at that moment: an
+// application that stores the sender of datagram k must still find that sender there after datagram k+1 was read.
+var retainedAddrs []struct {
+	a net.Addr
+	s string
+}
+
+func retain(a net.Addr) string {
+	if a == nil {
+		return ""
+	}
+	s := a.String()
+	retainedAddrs = append(retainedAddrs, struct {
+		a net.Addr
+		s string
+	}{a, s})
+	return s
+}
+
+// retainedAddrsChanged reports the first stored sender address that no longer says what it said when it was delivered.
+func retainedAddrsChanged() string {
+	for i, r := range retainedAddrs {
+		if now := r.a.String(); now != r.s {
+			return fmt.Sprintf("the sender address delivered with read #%d was %s; after later reads the same value says %s (of %d addresses kept)", i, r.s, now, len(retainedAddrs))
+		}
+	}
+	return ""
+}
+
 func (r pcReader) asyncRead(b []byte, cb func(error, int, string)) {
 	r.pc.AsyncReadFrom(b, func(err error, n int, a net.Addr) {
-		s := ""
-		if a != nil {
-			s = a.String()
-		}
-		cb(err, n, s)
+		cb(err, n, retain(a))
 	})
 }
 func (r pcReader) asyncWrite(b []byte, to *rawUDP, cb func(error)) {
@@ -143,11 +169,7 @@ func (r pcReader) asyncWrite(b []byte, to *rawUDP, cb func(error)) {
 }
 func (r pcReader) syncRead(b []byte) (int, string, error) {
 	n, a, err := r.pc.ReadFrom(b)
-	s := ""
-	if a != nil {
-		s = a.String()
-	}
-	return n, s, err
+	return n, retain(a), err
 }
 func (r pcReader) syncWrite(b []byte, to *rawUDP) error {
 	return r.pc.WriteTo(b, &net.UDPAddr{IP: net.IPv4(to.ip[0], to.ip[1], to.ip[2], to.ip[3]).To4(), Port: to.port})
@@ -196,7 +218,7 @@ func (r mpReader) name() string { return "UDPPeer" }
 
 func TestC12_DatagramBoundaries(t *testing.T) {
 	rec := evid.For("C12")
-	rec.SetRule("rapid: (A) PacketConn and multicast.UDPPeer on 127.0.0.1: bursts of 1..80 datagrams (consumed one read at a time from top level, or by a chain of reads re-armed from each completion with a fresh buffer, which crosses the dispatch limit) of 1..1372 bytes (and up to 60000) from 1..3 raw senders, reads with buffers smaller/equal/larger than the datagram, issued before (deferred) or after (inline) arrival; in a third of the rounds with a read pending, a second object of the same IO completes earlier in the same poll batch and takes the datagram with the blocking API, so that the pending read is woken for nothing, has to wait again and must complete with the next datagram; writes to raw receivers, singly or as a chain of 34..80 writes re-issued from their completions with varying destinations; oracle: every datagram completes exactly one read with n=min(len,buf), identical bytes, the sender's ip:port (getsockname of the raw sender), per-sender order; every write is received exactly once with the caller's bytes; (B) UDPPeer bind forms {'', ':0', ':p', ifaddr:p, 127.0.0.1:p, 224.0.x.y:p}: LocalAddr()==getsockname; (C) membership histories on eth0, the peer bound to a reserved port or (a quarter of the cases) to a kernel-chosen one ('', ':0', '0.0.0.0:0'): Join/JoinOn/JoinSource/Leave/LeaveSource/BlockSource/UnblockSource/SetLoop/SetTTL/SetOutboundIPv4/SetAsyncReadBuffer interleaved with multicast datagrams to joined and non-joined groups from a raw sender (source = interface address) while harness witness sockets keep every group joined on the host; a membership model (any-source with blocked set / include set) predicts delivered or not; non-delivery is decided by a unicast fence datagram that must be the next one read; getters TTL/Loop/Outbound/LocalAddr compared with getsockopt/getsockname after every call; non-trivial = >=2 membership changes with traffic after each, or a truncating read, or a buffer swap; distinct = hash of the history")
+	rec.SetRule("rapid: (A) PacketConn and multicast.UDPPeer on 127.0.0.1: bursts of 1..80 datagrams (consumed one read at a time from top level, or by a chain of reads re-armed from each completion with a fresh buffer, which crosses the dispatch limit) of 1..1372 bytes (and up to 60000) from 1..3 raw senders, reads with buffers smaller/equal/larger than the datagram, issued before (deferred) or after (inline) arrival; in a third of the rounds with a read pending, a second object of the same IO completes earlier in the same poll batch and takes the datagram with the blocking API, so that the pending read is woken for nothing, has to wait again and must complete with the next datagram; writes to raw receivers, singly or as a chain of 34..80 writes re-issued from their completions with varying destinations; oracle: every datagram completes exactly one read with n=min(len,buf), identical bytes, the sender's ip:port (getsockname of the raw sender), per-sender order; the address values handed to completions are kept and must still say the same at the end of the case; every write is received exactly once with the caller's bytes; (B) UDPPeer bind forms {'', ':0', ':p', ifaddr:p, 127.0.0.1:p, 224.0.x.y:p}: LocalAddr()==getsockname; (C) membership histories on eth0, the peer bound to a reserved port or (a quarter of the cases) to a kernel-chosen one ('', ':0', '0.0.0.0:0'): Join/JoinOn/JoinSource/Leave/LeaveSource/BlockSource/UnblockSource/SetLoop/SetTTL/SetOutboundIPv4/SetAsyncReadBuffer interleaved with multicast datagrams to joined and non-joined groups from a raw sender (source = interface address) while harness witness sockets keep every group joined on the host; a membership model (any-source with blocked set / include set) predicts delivered or not; non-delivery is decided by a unicast fence datagram that must be the next one read; getters TTL/Loop/Outbound/LocalAddr compared with getsockopt/getsockname after every call; non-trivial = >=2 membership changes with traffic after each, or a truncating read, or a buffer swap; distinct = hash of the history")
 	rec.Assume("loopback delivery keeps per-sender order; all local multicast senders have the interface address as source, a second source is an address that never sends (10.9.9.9); TTL 1, nothing leaves the sandbox")
 	vt.Check(t, 300, func(rt *rapid.T) {
 		ioc, err := sonic.NewIO()
@@ -205,6 +227,7 @@ func TestC12_DatagramBoundaries(t *testing.T) {
 		}
 		defer ioc.Close()
 		lo := [4]byte{127, 0, 0, 1}
+		retainedAddrs = retainedAddrs[:0]
 		var rd reader
 		if rapid.Bool().Draw(rt, "peer") {
 			// (a UDPPeer sets SO_REUSEPORT: a port picked by the kernel could be shared with a peer of another test process)
@@ -542,6 +565,9 @@ func TestC12_DatagramBoundaries(t *testing.T) {
 		}
 		if problem != "" {
 			rt.Fatalf("%s: %s; trace=%v", rd.name(), problem, trace)
+		}
+		if p := retainedAddrsChanged(); p != "" {
+			rt.Fatalf("%s: %s; trace=%v", rd.name(), p, trace)
 		}
 		// nothing else arrives
 		if sysx.WaitReadable(rd.rawFd(), 0) {
